@@ -79,6 +79,7 @@ type c20Case struct {
 	extraTop string // extra top-level declarations in wire.go
 	body     string // full injector body override
 	imports  string
+	twice    int // 1: a second injector with the same body; 2: both injectors use one named set holding the arguments
 }
 
 // c20OmitBadSets drops the deliberately ill-formed top-level set variables from the shared
@@ -115,7 +116,15 @@ func c20Render(cs c20Case) map[string]string {
 	if cs.imports != "" {
 		extraImp = "\t" + cs.imports + "\n"
 	}
-	w := "//go:build wireinject\n// +build wireinject\n\npackage p\n\nimport (\n\t" + imp + "\n" + extraImp + ")\n\n" + cs.extraTop + "\nfunc Init() " + result + " {\n" + body + "}\n"
+	extraTop := cs.extraTop
+	if cs.twice == 2 && cs.body == "" {
+		extraTop += "var Shared = Q.NewSet(" + cs.build + ")\n"
+		body = "\tpanic(Q.Build(Shared))\n"
+	}
+	w := "//go:build wireinject\n// +build wireinject\n\npackage p\n\nimport (\n\t" + imp + "\n" + extraImp + ")\n\n" + extraTop + "\nfunc Init() " + result + " {\n" + body + "}\n"
+	if cs.twice > 0 {
+		w += "\nfunc Init2() " + result + " {\n" + body + "}\n"
+	}
 	defs := c20Defs
 	if c20OmitBadSets {
 		defs = strings.Replace(defs, "\tUninitSet WIREQ.ProviderSet\n", "", 1)
@@ -152,6 +161,10 @@ func c20Cases() []c20Case {
 	for _, f := range forms {
 		add("build-arg/"+f.name, c20Case{build: f.expr + ", " + rest})
 		add("newset-arg/"+f.name, c20Case{build: "Q.NewSet(" + f.expr + "), " + rest})
+		// the same (possibly invalid) object reached twice: by two injectors, and through one named set two injectors use
+		for tw := 1; tw <= 2; tw++ {
+			out = append(out, c20Case{id: fmt.Sprintf("C20/build-arg-twice/%s/mode=%d", f.name, tw), build: f.expr + ", " + rest, twice: tw})
+		}
 	}
 	// 2. wire.Struct first argument and field-name arguments
 	structFirst := []struct{ name, expr string }{
@@ -268,6 +281,17 @@ func c20Cases() []c20Case {
 		{"fieldsof", "(Q.FieldsOf)(new(S), \"A\"), NewS, NewStr", "int"},
 	} {
 		add("paren-callee/"+m.name, c20Case{result: m.result, build: m.call})
+	}
+	// ill-formed graphs: a missing leaf under a diamond / needed by siblings in either order, two missing types,
+	// a cycle next to a missing type, an unused item next to a missing type
+	gdefs := "type (\n\tGX struct{}\n\tGY struct{}\n\tGA struct{}\n\tGB struct{}\n\tGC struct{}\n)\n\nfunc NewGA(x GX) *GA { return nil }\nfunc NewGB(x GX) *GB { return nil }\nfunc NewGB2(y *GY, a *GA) *GB { return nil }\nfunc NewGC(a *GA, b *GB) GC { return GC{} }\nfunc NewGC2(b *GB, a *GA) GC { return GC{} }\nfunc NewGX(c GC) GX { return GX{} }\n"
+	for _, g := range []struct{ name, build string }{
+		{"diamond-missing-leaf", "NewGA, NewGB, NewGC"}, {"diamond-missing-leaf-swapped", "NewGA, NewGB, NewGC2"},
+		{"two-missing-sibling-first", "NewGA, NewGB2, NewGC"}, {"two-missing-sibling-last", "NewGA, NewGB2, NewGC2"},
+		{"cycle-through-leaf", "NewGA, NewGB, NewGC, NewGX"}, {"missing-and-unused", "NewGA, NewGB, NewGC, NewInt"},
+		{"only-consumer", "NewGC"}, {"missing-ptr-form", "NewGB2, NewGC, Q.Struct(new(GA), \"*\"), Q.Struct(new(GY), \"*\"), Q.Value(GX{})"},
+	} {
+		add("graph/"+g.name, c20Case{result: "GC", build: g.build, extraTop: gdefs})
 	}
 	// generic injector
 	out = append(out, c20Case{id: "C20/generic-injector", extraTop: "", body: "\tpanic(wire.Build(NewInt, NewStr, NewS))\n", result: "S"})
